@@ -118,6 +118,9 @@ def run(ctx):
                             {'harness': label, 'args': a, 'exit': rc, 'report': (first or err[-400:])[:500],
                              'what': 'a library call on finite inputs executed undefined behaviour or let an exception escape (sanitizer / debug-mode report)'}))
     h.stats['sanitized_executions'] = nrun
+    # data races are undefined behaviour too: the const interface from two threads at once under ThreadSanitizer
+    from lib import tsan
+    tsan.run(ctx, 'all', 'undefined-behaviour|concurrent-use')
     h.stats['sanitized_binaries'] = len(build_jobs) + len(qjobs)
     # one pass under valgrind memcheck for reads of uninitialised values (thorough)
     if thorough:
